@@ -6,6 +6,7 @@ from typing import Any, Dict, Iterator, List, Optional, Tuple
 
 from .interp import Frame, _Raise, exc_class_of
 from .loader import ClassInfo, FuncInfo, Module
+from .values import _uid as _uid_counter
 from .values import (ELL, NIL, ClassV, Const, DictV, ExcV, Ext, FuncV, Inst, ListV, ModV, PropsV,
                      SchemaV, SetV, Spread, StrV, Sym, Term, TupleV, V, is_ell, is_nil, kind_is,
                      kind_may_be)
@@ -780,6 +781,8 @@ class ExprMixin:
             if gi == 0:
                 first_iter.append(it)
             concrete = self._enumerable(it)
+            if getattr(self, "comp_as_loop", False):
+                concrete = True      # requested by a rule that found iteration-carried state in a comprehension body
             if make == "dict" and len(gens) == 1:
                 # a dict comprehension is evaluated exactly like the loop `d = {}; for ..: d[k] = v` (bounded unrolling of a
                 # symbolic source), so that both spellings of a table transformer yield the same abstract table
@@ -799,7 +802,18 @@ class ExprMixin:
                 self.emit("comp_iter", node, iterable=it, conds=conds, make=make)
                 rec(gi + 1)
 
+        n_ev = len(self.events)
+        uid_mark = next(_uid_counter)
         rec(0)
+        if opaque[0]:
+            # iteration-carried state: the body (evaluated once, for a generic member) wrote to a container that
+            # already existed before the comprehension - later members see what earlier ones left there
+            for e in self.events[n_ev:]:
+                if e.kind == "write":
+                    tgt = e.data.get("target")
+                    if isinstance(tgt, (ListV, DictV, SetV)) and getattr(tgt, "uid", uid_mark + 1) < uid_mark:
+                        self.emit("comp_stateful", node, target=tgt)
+                        break
         if not opaque[0]:
             if make == "list":
                 return ListV(results)
